@@ -29,6 +29,7 @@ type Exec struct {
 
 	mu      sync.Mutex
 	seq     int64
+	emitterN int
 	Calls   []string // "t3(p0,t1.0(p0))"
 	Starts  map[string]int64
 	Ends    map[string]int64
@@ -75,6 +76,12 @@ type TaskErr struct{ Task string }
 func (e *TaskErr) Error() string { return "task " + e.Task + " failed" }
 
 type PanicVal struct{ Task string }
+
+// RtErr is a panic value that is a runtime.Error (as a nil-map write or an index out of range would be).
+type RtErr struct{ Task string }
+
+func (e RtErr) Error() string { return "runtime error: " + e.Task }
+func (RtErr) RuntimeError()   {}
 
 func (x *Exec) next() int64 { return atomic.AddInt64(&x.seq, 1) }
 
@@ -128,6 +135,8 @@ func (x *Exec) Call(id string, nouts int, args ...string) ([]string, error) {
 		panic(&cff.PanicError{Value: PanicVal{id}})
 	case "panic-str":
 		panic("s:" + id)
+	case "panic-rt":
+		panic(RtErr{id})
 	case "cancel":
 		x.Cancel()
 	}
@@ -153,6 +162,8 @@ func (x *Exec) Pred(id string, args ...string) bool {
 		panic(&cff.PanicError{Value: PanicVal{id}})
 	case "panic-str":
 		panic("s:" + id)
+	case "panic-rt":
+		panic(RtErr{id})
 	}
 	return true
 }
@@ -226,6 +237,28 @@ type recEmitter struct {
 }
 
 func (x *Exec) Emitter(name string) cff.Emitter { return &recEmitter{x, name} }
+
+// NextEmitter returns the emitters e0, e1, ... in the order of its evaluations: a directive
+// may spell two of its arguments with the same text.
+func (x *Exec) NextEmitter() cff.Emitter {
+	x.mu.Lock()
+	k := x.emitterN
+	x.emitterN++
+	x.mu.Unlock()
+	return x.Emitter(fmt.Sprintf("e%d", k))
+}
+
+// Auto logs the evaluation of an argument expression whose text occurs more than once in the
+// directive: it takes the next index, so only the number of evaluations is observable.
+func Auto[T any](x *Exec, v T) T {
+	s := x.next()
+	x.mu.Lock()
+	x.Args = append(x.Args, len(x.Args))
+	x.ArgSeq = append(x.ArgSeq, s)
+	x.Tick++
+	x.mu.Unlock()
+	return v
+}
 
 func (e *recEmitter) log(format string, a ...interface{}) {
 	e.x.mu.Lock()
@@ -332,6 +365,8 @@ func ErrClass(err error) string {
 			}
 		case string:
 			return "panic-str:" + strings.TrimPrefix(v, "s:")
+		case RtErr:
+			return "panic-rt:" + v.Task
 		}
 		return fmt.Sprintf("panic:?%v", pe.Value)
 	}
@@ -373,6 +408,7 @@ class GenFlow:
         self.bare = rich and r.random() < 0.5      # some arguments are bare identifiers, reassigned by the last argument
         self.clock = rich and r.random() < 0.5     # a plain (non-call) argument expression reading the evaluation clock
         self.rseed = r.getrandbits(32)
+        self.wide = False
         if self.bare:
             self.has_conc = True
 
@@ -441,8 +477,13 @@ class GenFlow:
             opts.append("cff.Params(%s)" % ", ".join(pexprs))
         if self.has_conc and not self.bare:
             opts.append("cff.Concurrency(%s)" % arg("conc"))
+        same_text = self.emitters >= 2 and rr.random() < 0.6     # the same expression text at two argument positions
         for e in range(self.emitters):
-            opts.append("cff.WithEmitter(%s)" % arg("x.Emitter(\"e%d\")" % e))
+            if same_text:
+                argn[0] += 1
+                opts.append("cff.WithEmitter(Auto(x, x.NextEmitter()))")
+            else:
+                opts.append("cff.WithEmitter(%s)" % arg("x.Emitter(\"e%d\")" % e))
         if self.instr_flow:
             opts.append("cff.InstrumentFlow(%s)" % arg("\"%s\"" % n))
         rexprs = []
@@ -530,8 +571,8 @@ class GenFlow:
         for t in self.tasks:
             if t["pred"] is not None:
                 out.append(("predfalse", {"q%d" % t["id"]: "false"}))
-                out.append(("predpanic", {"q%d" % t["id"]: r.choice(["panic", "panic", "panic-err", "panic-pe", "panic-str"])}))
-            out.append(("panic", {"t%d" % t["id"]: r.choice(["panic", "panic", "panic-err", "panic-pe", "panic-str"])}))
+                out.append(("predpanic", {"q%d" % t["id"]: r.choice(["panic", "panic", "panic-err", "panic-pe", "panic-str", "panic-rt"])}))
+            out.append(("panic", {"t%d" % t["id"]: r.choice(["panic", "panic", "panic-err", "panic-pe", "panic-str", "panic-rt"])}))
             if r.random() < 0.3:
                 out.append(("cancel", {"t%d" % t["id"]: "cancel"}))
             if t["haserr"]:
@@ -541,7 +582,7 @@ class GenFlow:
                 sc = {}
                 for t in self.tasks:
                     if r.random() < 0.3:
-                        sc["t%d" % t["id"]] = r.choice(["panic", "panic-pe", "cancel"] + (["err"] if t["haserr"] else []))
+                        sc["t%d" % t["id"]] = r.choice(["panic", "panic-pe", "panic-rt", "cancel"] + (["err"] if t["haserr"] else []))
                     if t["pred"] is not None and r.random() < 0.3:
                         sc["q%d" % t["id"]] = r.choice(["false", "panic"])
                 out.append(("multi", sc))
@@ -597,13 +638,14 @@ func ExtC(x *Exec, conc int) ([]string, error) {
 }
 '''
 
-VARIANTS = ["plain", "cffalias", "timealias", "generic", "ctxalias"]
+VARIANTS = ["plain", "cffalias", "timealias", "generic", "ctxalias", "pkgvar"]
 
 
 def render_package(flows, ntypes, variants=True):
     """The package: runtime, types, and the directives, several per file. With variants,
     the files differ in how they spell their surroundings: cff or context imported under
-    another name, time imported under another name, directives inside generic functions."""
+    another name, time imported under another name, directives inside generic functions or in
+    the initialiser of a package-level variable."""
     files = {}
     files["rt.go"] = RT_GO
     files["errclass.go"] = ERRCLASS_GO.replace("errCanceled", "context.Canceled").replace('import (\n\t"errors"', 'import (\n\t"context"\n\t"errors"')
@@ -622,7 +664,7 @@ def render_package(flows, ntypes, variants=True):
             imports = ['\tctxpkg "context"', "", '\t"go.uber.org/cff"']
             tail = ["var _ ctxpkg.Context", ""]
         src = ["//go:build cff", "", "package gen", "", "import ("] + imports + [")", ""] + tail
-        for f in flows[k:k + per]:
+        for fi, f in enumerate(flows[k:k + per]):
             txt = f.render()
             if var == "cffalias":
                 txt = txt.replace("cff.", "cffx.")
@@ -632,6 +674,12 @@ def render_package(flows, ntypes, variants=True):
                 n = f.name()
                 head = "func %s(x *Exec, conc int) ([]string, error) {" % n
                 txt = txt.replace(head, "%s\n\treturn %sg[struct{}](x, conc)\n}\n\nfunc %sg[Z any](x *Exec, conc int) ([]string, error) {" % (head, n[0].lower() + n[1:], n[0].lower() + n[1:]), 1)
+            elif var == "pkgvar" and ((k // per) // len(VARIANTS) % 2 == 0 or fi % 2 == 1):
+                # the directive inside a function literal that initialises a package-level variable
+                # (every flow of the file, or every other one next to ordinary functions)
+                n = f.name()
+                head = "func %s(x *Exec, conc int) ([]string, error) {" % n
+                txt = txt.replace(head, "%s\n\treturn %sV(x, conc)\n}\n\nvar %sV = func(x *Exec, conc int) ([]string, error) {" % (head, n[0].lower() + n[1:], n[0].lower() + n[1:]), 1)
             src.append(txt)
         files["flows%02d.go" % (k // per)] = "\n".join(src)
     if variants:
@@ -650,7 +698,7 @@ def render_runner(flows, scen, concs):
          'type run struct {', '\tFlow string `json:"flow"`', '\tLabel string `json:"label"`', '\tConc int `json:"conc"`',
          '\tScenario map[string]string `json:"scenario"`', '\tSleeps map[string]int `json:"sleeps"`', '\tPrecancel bool `json:"precancel"`', '\tErr string `json:"err"`', '\tResults []string `json:"results"`',
          '\tCalls []string `json:"calls"`', '\tArgs []int `json:"args"`', '\tArgsBeforeStart bool `json:"args_before_start"`',
-         '\tEvents []string `json:"events"`', '\tCtxBad []string `json:"ctx_bad"`', '\tMaxFlight int `json:"max_inflight"`',
+         '\tEvents []string `json:"events"`', '\tCtxBad []string `json:"ctx_bad"`', '\tMaxFlight int `json:"max_inflight"`', '\tGomaxprocs int `json:"gomaxprocs"`',
          '\tQuiesced bool `json:"quiesced"`', '\tLeaked int `json:"leaked"`', '\tExtras map[string]string `json:"extras"`', '\tStarts map[string]int64 `json:"starts"`', '\tEnds map[string]int64 `json:"ends"`', '}', '',
          'var fns = map[string]func(*gen.Exec, int) ([]string, error){']
     for f in flows:
@@ -658,7 +706,10 @@ def render_runner(flows, scen, concs):
     L += ['}', '', 'func main() {', '\tenc := json.NewEncoder(os.Stdout)', '\tbase := runtime.NumGoroutine()', '\tleakSeen := false', '\tvar plan []run',
           '\tif err := json.NewDecoder(os.Stdin).Decode(&plan); err != nil {', '\t\tpanic(err)', '\t}',
           '\tfor _, p := range plan {', '\t\tfmt.Fprintf(os.Stderr, "RUN %s %s %d\\n", p.Flow, p.Label, p.Conc)',
-          '\t\tx := gen.NewExec(p.Scenario, p.Sleeps)', '\t\tif p.Precancel {', '\t\t\tx.Cancel()', '\t\t}', '\t\tres, err := fns[p.Flow](x, p.Conc)',
+          '\t\tx := gen.NewExec(p.Scenario, p.Sleeps)', '\t\tif p.Precancel {', '\t\t\tx.Cancel()', '\t\t}',
+          '\t\toldProcs := 0', '\t\tif p.Gomaxprocs > 0 {', '\t\t\toldProcs = runtime.GOMAXPROCS(p.Gomaxprocs)', '\t\t}',
+          '\t\tres, err := fns[p.Flow](x, p.Conc)',
+          '\t\tif oldProcs > 0 {', '\t\t\truntime.GOMAXPROCS(oldProcs)', '\t\t}',
           '\t\tp.Quiesced = x.Quiesce()',
           '\t\tfor i := 0; i < 3000 && runtime.NumGoroutine() > base; i++ {', '\t\t\ttime.Sleep(500 * time.Microsecond)', '\t\t}',
           '\t\t// still above the baseline: a leak, or a slow machine - wait much longer before the first verdict',
@@ -681,7 +732,16 @@ def gen_flows(seed, n, rich=True):
     ntypes = 0
     while len(flows) < n:
         base = flowgen.gen_wellformed(r, max_tasks=6) if rich else flowgen.gen_wellformed(r, max_tasks=6, pred_prob=0.0, invoke_prob=0.0)
+        wide = rich and len(flows) % 24 == 7
+        if wide:
+            # a wide flow without cff.Concurrency: ten independent tasks and a join (the default limit must hold)
+            base = flowgen.Flow()
+            base.params, base.results = [0], [11]
+            base.tasks = [dict(ins=[0], outs=[k + 1], pred=None, invoke=False) for k in range(10)] + [dict(ins=list(range(1, 11)), outs=[11], pred=None, invoke=False)]
+            base.ntypes = 12
         gf = GenFlow(len(flows), base, r, rich=rich)
+        if wide:
+            gf.has_conc, gf.bare, gf.wide = False, False, True
         flows.append(gf)
         ntypes = max(ntypes, base.ntypes)
     return flows, ntypes + 1, r
